@@ -307,3 +307,189 @@ def guard_chains(fn, want):
 
     visit(fn.get("body"), [])
     return out
+
+
+# ------------------------------------------------------------------ path conditions in a normal form
+_NEG_VARIANT = {"None": "Some(_)", "Some(_)": "None", "Ok(_)": "Err(_)", "Err(_)": "Ok(_)"}
+
+
+def _split_top(tokens):
+    """split a macro token string at its first top-level comma"""
+    depth = 0
+    for i, ch in enumerate(tokens):
+        if ch in "([{":
+            depth += 1
+        elif ch in ")]}":
+            depth -= 1
+        elif ch == "," and depth == 0:
+            return tokens[:i], tokens[i + 1:]
+    return tokens, ""
+
+
+def _pat_tok(t):
+    import re
+    t = _tok_skel(t)
+    t = t.replace("{..}", "{}").replace("(..)", "(_)").replace(",..}", "}").replace(",..)", ")")
+    return re.sub(r"\b_\b(?=[\w])", "_", t)
+
+
+def _variants(ps):
+    """last path segments of the alternatives of a pattern skeleton; None for a catch-all"""
+    import re
+    out = set()
+    for alt in ps.split("|"):
+        alt = alt.strip()
+        if alt in ("_", "") or alt.startswith("("):
+            return None
+        m = re.match(r"([\w:]+)", alt)
+        if not m:
+            return None
+        out.add(m.group(1).split("::")[-1])
+    return out
+
+
+def cond_literals(c, sign, lets, depth=0):
+    """the literals (strings) of the conjunction that `c` (sign True) or its negation (sign False) stands for.
+    && / || / ! are taken apart, `matches!`, `if let`, `.is_none()` & co. become `E ~ P`, comparisons are oriented,
+    single-assignment boolean locals are replaced by their definitions; anything else is one opaque literal."""
+    k = c.get("k")
+    if k in ("Paren", "Group"):
+        return cond_literals(c["e"], sign, lets, depth)
+    if k == "Unary" and c["op"] == "!":
+        return cond_literals(c["e"], not sign, lets, depth)
+    if k == "Binary" and c["op"] in ("&&", "||"):
+        conj = (c["op"] == "&&") == sign
+        parts = cond_literals(c["lhs"], sign, lets, depth) , cond_literals(c["rhs"], sign, lets, depth)
+        if conj:
+            return parts[0] | parts[1]
+        # a disjunction: one compound literal, order-insensitive
+        alts = sorted(" & ".join(sorted(p)) for p in parts)
+        return {"(" + " | ".join(alts) + ")"}
+    if k == "LetCond":
+        return {_lit_match(expr_skel(c["e"]), pat_skel(c["pat"]), sign)}
+    if k == "Macro" and c.get("path") == "matches":
+        e, p = _split_top(c.get("tokens") or "")
+        e = _tok_skel(e).lstrip("&")
+        guard = None
+        if " if " in (c.get("tokens") or ""):
+            pass
+        return {_lit_match(e, _pat_tok(p), sign)}
+    if k == "MethodCall" and not c["args"] and c["method"] in ("is_none", "is_some", "is_ok", "is_err"):
+        pat = {"is_none": "None", "is_some": "Some(_)", "is_ok": "Ok(_)", "is_err": "Err(_)"}[c["method"]]
+        return {_lit_match(expr_skel(c["recv"]), pat, sign)}
+    if k == "Binary" and c["op"] in ("==", "!=", "<", "<=", ">", ">="):
+        op = c["op"]
+        a, b = expr_skel(c["lhs"]), expr_skel(c["rhs"])
+        if not sign:
+            op = {"==": "!=", "!=": "==", "<": ">=", ">=": "<", ">": "<=", "<=": ">"}[op]
+        if op in (">", ">="):
+            op, a, b = {">": "<", ">=": "<="}[op], b, a
+        if op in ("==", "!="):
+            a, b = sorted([a, b])
+        return {f"({a} {op} {b})"}
+    if k == "Path" and len(c["path"]["segs"]) == 1 and depth < 4:
+        d = lets.get(c["path"]["s"])
+        if d is not None:
+            return cond_literals(d, sign, lets, depth + 1)
+    if k == "Lit" and str(c.get("v")).lower() in ("true", "false"):
+        return set() if (str(c.get("v")).lower() == "true") == sign else {"false"}
+    s = expr_skel(c)
+    return {s if sign else "!" + s}
+
+
+def _lit_match(e, p, sign):
+    e = e.lstrip("&")
+    if "|" in p and "(" not in p.split("|")[0]:
+        p = "|".join(sorted(x.strip() for x in p.split("|")))
+    if not sign:
+        if p in _NEG_VARIANT:
+            return f"{e} ~ {_NEG_VARIANT[p]}"
+        return f"!({e} ~ {p})"
+    return f"{e} ~ {p}"
+
+
+def single_lets(fn):
+    """immutable `let x = <expr>;` bindings of a function with exactly one definition of that name"""
+    seen, out = {}, {}
+    for n in find_all(fn.get("body"), lambda x: x.get("k") == "Let"):
+        p = n.get("pat") or {}
+        while p.get("k") == "PType":
+            p = p["pat"]
+        if p.get("k") == "PIdent":
+            seen[p["id"]] = seen.get(p["id"], 0) + 1
+            if not p.get("mut") and n.get("init") is not None:
+                out[p["id"]] = n["init"]
+    return {k: v for k, v in out.items() if seen.get(k) == 1}
+
+
+def guard_literals(fn, want):
+    """For every node satisfying want(node) inside fn: the *set* of literals of its path condition (loops included as
+    context literals).  Two spellings of one condition -- `match` vs `if matches!` vs `if let`, nested ifs vs `&&`,
+    a named boolean vs its definition, swapped operands -- give the same set."""
+    out = []
+    lets = single_lets(fn)
+
+    def visit(n, ctx):
+        if isinstance(n, list):
+            for x in n:
+                visit(x, ctx)
+            return
+        if not isinstance(n, dict):
+            return
+        k = n.get("k")
+        if want(n):
+            out.append((n, frozenset(ctx)))
+        if k == "If":
+            c = n["cond"]
+            visit(c["e"] if c.get("k") == "LetCond" else c, ctx)
+            visit(n["then"], ctx | cond_literals(c, True, lets))
+            if "else" in n:
+                visit(n["else"], ctx | cond_literals(c, False, lets))
+            return
+        if k == "Match":
+            visit(n["e"], ctx)
+            scrut = expr_skel(n["e"]).lstrip("&")
+            prev = []
+            for a in n["arms"]:
+                ps = pat_skel(a["pat"])
+                lits = set()
+                if ps != "_":
+                    lits.add(_lit_match(scrut, ps, True))
+                if a.get("guard"):
+                    lits |= cond_literals(a["guard"], True, lets)
+                    visit(a["guard"], ctx)
+                mine = _variants(ps)
+                for (pps, pg) in prev:
+                    theirs = _variants(pps)
+                    if mine is not None and theirs is not None and not (mine & theirs):
+                        continue        # an earlier arm for other variants says nothing about this one
+                    if pg is None:
+                        lits.add(_lit_match(scrut, pps, False) if pps != "_" else "false")
+                    elif pps == "_":
+                        lits |= cond_literals(pg, False, lets)
+                    else:
+                        inner = sorted(({_lit_match(scrut, pps, True)} if pps != "_" else set()) | cond_literals(pg, True, lets))
+                        lits.add("!(" + " & ".join(inner) + ")")
+                visit(a["body"], ctx | lits)
+                prev.append((ps, a.get("guard")))
+            return
+        if k == "For":
+            visit(n["iter"], ctx)
+            visit(n["body"], ctx | {"for " + pat_skel(n["pat"]) + " in " + expr_skel(n["iter"])})
+            return
+        if k == "While":
+            c = n["cond"]
+            visit(c["e"] if c.get("k") == "LetCond" else c, ctx)
+            visit(n["body"], ctx | {"while"} | cond_literals(c, True, lets))
+            return
+        if k == "Closure":
+            visit(n["body"], ctx | {"closure"})
+            return
+        if k == "Fn":
+            return
+        for key, v in n.items():
+            if isinstance(v, (dict, list)):
+                visit(v, ctx)
+
+    visit(fn.get("body"), frozenset())
+    return out
